@@ -106,7 +106,7 @@ func runMonitor(prop, tier, oneCase string) monitorResult {
 		}
 		env = append(env, e)
 	}
-	env = append(env, "GOFLAGS=-mod=mod", "GOPROXY=off", "KVC_MON_TIER="+tier, "KVC_MON_CASE="+oneCase, "KVC_MON_PROP="+prop, "KVC_MON_GOLDEN="+filepath.Join(verifDir(), "golden"))
+	env = append(env, "GOFLAGS=-mod=mod", "GOPROXY=off", "KVC_MON_TIER="+tier, "KVC_MON_CASE="+oneCase, "KVC_MON_PROP="+prop, "KVC_MON_GOLDEN="+filepath.Join(verifDir(), "golden"), "KVC_MON_SEED="+os.Getenv("VERIF_SEED"))
 	cmd.Env = env
 	var out bytes.Buffer
 	cmd.Stdout = &out
